@@ -8,6 +8,7 @@
 (*                      collision alphabet  i n t y f d e 1 5 x _          *)
 (*            "ints" "floats" "decs" "strings"   literal families          *)
 (*            "layout"  base token sequences x every separator assignment  *)
+(*            "scale"   long and deep texts of size N                      *)
 (***************************************************************************)
 EXTENDS RuleText, TLC, Json
 
@@ -79,6 +80,33 @@ StrTexts ==
          Q \o S("\\u{41") , Q \o S("abc"), Q, Q \o S("a") \o <<92>> \o Q, Q \o <<92, 92>> \o Q, Q \o <<92, 92, 92>> \o Q,
          Q \o S("a//b") \o Q, Q \o S("a") \o <<10>> \o S("//b") \o Q, Q \o Q, Q \o Q \o Q, Q \o S("a") \o Q \o S("b") \o Q }
 
+\* ---- scale: long and deep texts (N = size) ------------------------------------------------
+RECURSIVE Rep(_, _)
+Rep(t, n) == IF n = 0 THEN <<>> ELSE t \o Rep(t, n - 1)
+RECURSIVE Dec10(_)
+Dec10(n) == IF n < 10 THEN <<48 + n>> ELSE Dec10(n \div 10) \o <<48 + (n % 10)>>
+RECURSIVE Enum(_, _, _, _)          \* pre(i) ... joined by sep
+Enum(F(_), sep, i, n) == IF i > n THEN <<>> ELSE F(i) \o (IF i < n THEN sep ELSE <<>>) \o Enum(F, sep, i + 1, n)
+Deep == IF N > 60 THEN 60 ELSE N
+ScaleTexts ==
+  LET ia(i) == S("i") \o Dec10(i)
+      pa(i) == S("(a") \o Dec10(i) \o S(")")
+      kv(i) == S("k") \o Dec10(i) \o S(": i") \o Dec10(i)
+      E0 == Rep(<<233>>, N)                         \* two-byte characters: every odd byte offset is inside a character
+      E1 == <<97>> \o Rep(<<233>>, N)               \* ... and every even one
+  IN { Enum(pa, S(" + "), 1, N),                                   \* N parenthesised atoms
+       Rep(S("("), Deep) \o S("a") \o Rep(S(")"), Deep),            \* nested parentheses
+       Enum(ia, S(" and "), 1, N), Enum(ia, S(" or "), 1, N), Enum(ia, S(" - "), 1, N), Enum(ia, S(" == "), 1, N \div 4 + 2),
+       Rep(S("f("), Deep) \o S("a") \o Rep(S(")"), Deep),           \* nested calls
+       Rep(S("!"), Deep) \o S("a"), Rep(S("-"), Deep) \o S("a"),
+       S("a") \o Rep(S(".b"), N), S("a") \o Rep(S(".1"), N),        \* long paths
+       S("[") \o Enum(ia, S(", "), 1, N) \o S("]"), S("{") \o Enum(kv, S(", "), 1, N) \o S("}"),
+       Rep(S("if a then b else "), Deep) \o S("c"),                 \* an else-if ladder
+       Rep(S("x"), N), S("i1") \o Rep(S("0"), N), S("d1.") \o Rep(S("0"), N) \o S("5"), S("f0.") \o Rep(S("0"), N) \o S("5"),
+       Q \o E0 \o Q, Q \o E1 \o Q, Q \o E0 \o Q \o S(" +"), Q \o E1 \o Q \o S(" +"), Q \o E1, E0, S("a + ") \o E1,
+       S("// ") \o E0 \o <<10>> \o S("// ") \o E1 \o <<10>> \o S("a"),    \* a long rule name and description
+       Rep(<<10>>, N) \o S("a"), Rep(S("//c") \o <<10>>, N) \o S("a"), S("a") \o Rep(<<32>>, N) \o S("+") \o Rep(<<9>>, N) \o S("b") }
+
 \* ---- layout -----------------------------------------------------------------------------
 Seps == << <<32>>, <<9, 10>>, <<13, 10>>, <<160>>, S("//c") \o <<10>>, <<>>, S("//c") \o <<13>>, <<11, 12, 133, 8232, 5760, 8287>>,
            S("  ") \o <<10>> \o S("// x y") \o <<13, 10, 32>>, <<12288>>, <<13>>, <<9>> >>
@@ -101,7 +129,7 @@ vars == <<txt, lay>>
 NB == 24
 Bucket(t) == (Len(t) * 7 + (IF t = <<>> THEN 0 ELSE t[Len(t)] + t[(Len(t) + 1) \div 2])) % NB
 FamilyTexts == CASE Family = "ints" -> IntTexts [] Family = "floats" -> FloatTexts
-                 [] Family = "decs" -> DecTexts [] Family = "strings" -> StrTexts [] OTHER -> {}
+                 [] Family = "decs" -> DecTexts [] Family = "strings" -> StrTexts [] Family = "scale" -> ScaleTexts [] OTHER -> {}
 Lay0 == [b |-> 0, k |-> 0, nosep |-> FALSE]
 Init == IF Family = "chars" \/ Family = "words" THEN txt = <<>> /\ lay = Lay0
         ELSE IF Family = "layout" THEN \E b \in 1..Len(LayoutBases) : lay = [b |-> b, k |-> 1, nosep |-> FALSE] /\ txt = LayoutBases[b][1]
